@@ -62,6 +62,10 @@ def run(ctx):
     ctx.check(not mut_api, "P6", "shared-only", "no public method of BootInformation takes &mut self", "", how="0", why=str(mut_api))
     MS.termination(ctx, F, cl, LOOPS)
     MS.zero_census(ctx, F, cl)
+    if ctx.tier == "thorough":
+        from .. import witness
+        witness.check(ctx, [("P9TagOutlivesInfo", "P9: a tag reference cannot outlive the BootInformation it came from"),
+                            ("PrivBytesRef", "I-BR: a BytesRef cannot be forged (private fields)")], rule="P9")
     ctx.note("P9 (a tag reference cannot outlive the loaded object's borrow) is a compile-fail witness in the thorough tier")
     ctx.note("not decided: adequacy of the written bounding arguments themselves; LLVM-level behaviour; termination of ElfSection::name over external memory")
     return ctx.finish(
